@@ -221,7 +221,8 @@ def solve1(q, timeout_ms=10000, use_cvc5=True, full=True):
     if r == 'unsat':
         return dict(status='proved', backend='z3', time=time.time() - t0)
     if r == 'sat' and not weakened:
-        return dict(status='refuted', backend='z3', time=time.time() - t0, model=model_to_dict(m), smt_model=str(m)[:4000])
+        return dict(status='refuted', backend='z3', time=time.time() - t0, model=model_to_dict(m), smt_model=str(m)[:4000],
+                    _z3model=m)
     cand = m
     if not full:
         return dict(status='unknown', backend='z3', time=time.time() - t0, reason='instantiated query not unsat',
@@ -239,7 +240,8 @@ def solve1(q, timeout_ms=10000, use_cvc5=True, full=True):
         return dict(status='proved', backend='z3', time=time.time() - t0)
     if r2 == z3.sat:
         m2 = s.model()
-        return dict(status='refuted', backend='z3', time=time.time() - t0, model=model_to_dict(m2), smt_model=str(m2)[:4000])
+        return dict(status='refuted', backend='z3', time=time.time() - t0, model=model_to_dict(m2), smt_model=str(m2)[:4000],
+                    _z3model=m2)
     # quantifier alternation (an existential under a universal, or in the goal): negation normal form with
     # skolemisation first, then the same instantiate-and-check
     try:
@@ -257,7 +259,7 @@ def solve1(q, timeout_ms=10000, use_cvc5=True, full=True):
         # counter-model of the instantiated query: satisfies every ground hypothesis and every generated instance of
         # the quantified ones; the full query could not be refuted or proved.  Reported as refuted (weakened).
         return dict(status='refuted', backend='z3 (instantiated query)', time=time.time() - t0, weakened=True,
-                    model=model_to_dict(cand), smt_model=str(cand)[:4000])
+                    model=model_to_dict(cand), smt_model=str(cand)[:4000], _z3model=cand)
     return dict(status='unknown', backend='z3+cvc5' if use_cvc5 else 'z3', time=time.time() - t0,
                 reason=s.reason_unknown())
 
